@@ -111,6 +111,15 @@ def run(repo: Repo, chk: Check) -> None:
     want = App('mcall:decode', App('b58', ref_root([App('raw', Sym(f'o{i}')) for i in range(3)]), b'Lo'))
     chk.ob('R-TEMPLATE', ol.qualname, len(res) == 1 and vkey(res[0].value) == vkey(want), "Lo(root of the decoded operation hashes)", ol.loc,
            {'got': vrepr(res[0].value)[:300] if res else None}, what='operation_list_hash is not the Lo-encoded Merkle root of the decoded hashes')
+    # a list may name the same operation hash more than once: every occurrence is a leaf (nothing is de-duplicated or re-ordered on the way)
+    _it = Interp(repo, MerkleHooks(), max_depth=12)
+    _it.max_recursion = 12
+    dup = [Sym('o0', 'str'), Sym('o1', 'str'), Sym('o0', 'str'), Sym('o2', 'str')]
+    res = _it.run_function(ol, [list(dup)])
+    want = App('mcall:decode', App('b58', ref_root([App('raw', Sym(x.name)) for x in dup]), b'Lo'))
+    chk.ob('R-TEMPLATE', ol.qualname, len(res) == 1 and vkey(res[0].value) == vkey(want), 'a repeated operation hash is a leaf at each of its positions', ol.loc,
+           {'got': vrepr(res[0].value)[:300] if res else None, 'want': vrepr(want)[:300]},
+           what='operation_list_hash of [h0, h1, h0, h2] is not the Merkle root over those four leaves in that order (duplicates dropped or order changed)')
     oll = repo.func(f'{HM}.operation_list_list_hash')
     _it = Interp(repo, _LLHooks(), max_depth=12)
     _it.max_recursion = 12
